@@ -72,6 +72,32 @@ type clusterSpec struct {
 	OffsetFetchMax  int16        `json:"offsetfetch_max"`
 	OffsetCommitMax int16        `json:"offsetcommit_max"`
 	FindCoordMax    int16        `json:"findcoordinator_max"`
+	// ZeroID: the broker with the highest id is registered as node 0 instead (node ids start at 0 in most real clusters);
+	// every id in the case is already written that way.
+	ZeroID bool `json:"zero_id,omitempty"`
+}
+
+// ids lists the registered broker ids in ascending order.
+func (c *clusterSpec) ids() []int32 {
+	var out []int32
+	if c.ZeroID {
+		out = append(out, 0)
+	}
+	for i := 1; i <= c.Brokers; i++ {
+		if c.ZeroID && i == c.Brokers {
+			continue
+		}
+		out = append(out, int32(i))
+	}
+	return out
+}
+
+// rackIndex is the index into Racks of a registered broker id.
+func (c *clusterSpec) rackIndex(id int32) int {
+	if c.ZeroID && id == 0 {
+		return c.Brokers - 1
+	}
+	return int(id) - 1
 }
 
 type connStep struct {
@@ -188,10 +214,20 @@ func (m *model) topicSpec(name string) *topicSpec {
 	return nil
 }
 
-func (m *model) alive(id int32) bool { return id >= 1 && int(id) <= m.c.Brokers }
+func (m *model) alive(id int32) bool {
+	for _, x := range m.c.ids() {
+		if x == id {
+			return true
+		}
+	}
+	return false
+}
 
 func (m *model) rack(id int32) string {
-	if i := int(id) - 1; i >= 0 && i < len(m.c.Racks) {
+	if !m.alive(id) {
+		return ""
+	}
+	if i := m.c.rackIndex(id); i >= 0 && i < len(m.c.Racks) {
 		return m.c.Racks[i]
 	}
 	return ""
@@ -216,15 +252,14 @@ func brokerAddr(id int32) string { return fmt.Sprintf("b%d.fake:9092", id) }
 
 // buildCluster materialises the spec on a fake cluster and returns the model.
 func buildCluster(tb ev.TB, nw *memnet.Network, c *clusterSpec) (*fakecluster.Cluster, *model) {
-	cl := fakecluster.New(nw, c.Brokers)
+	cl := fakecluster.New(nw, 0)
 	m := &model{c: c, parts: map[string][]*mpart{}, commits: map[string]map[string]map[int]commitVal{}}
-	for i, r := range c.Racks {
-		if r != "" && i < c.Brokers {
-			b := cl.Broker(int32(i + 1))
-			cl.Lock()
-			b.Rack = r
-			cl.Unlock()
+	for _, id := range c.ids() {
+		rack := ""
+		if ri := c.rackIndex(id); ri < len(c.Racks) {
+			rack = c.Racks[ri]
 		}
+		cl.AddBroker(id, rack)
 	}
 	cl.SetController(c.Controller)
 	for ti := range c.Topics {
